@@ -118,7 +118,7 @@ def run(tier, seed, build):
             "ConstantsLaws"]
     cfg = ("SPECIFICATION EmitSpec\nCONSTANTS\nNFun = 8\nCDeviations = {}\nTier = \"%s\"\n%s\nCHECK_DEADLOCK FALSE\n"
            % (tier, "\n".join("INVARIANT " + i for i in invs)))
-    mc = run_tlc("c12-mc", "MC_ConnModel", cfg, workers=16, timeout=6000, heap="16g")
+    mc = run_tlc("c12-mc", "MC_ConnModel", cfg, workers=16, timeout=6000, heap="8g")
     rep.add_tlc("MC_ConnModel", mc)
     if not mc.ok:
         rep.machinery("TLC on MC_ConnModel failed: " + mc.errors())
